@@ -39,9 +39,90 @@ def prefixes(ctx, src, step=1):
     return [b[:e].decode("utf-8", "ignore") for e in ends[::step]]
 
 
+KEYWORDS = ["let", "fun", "enum", "struct", "import", "if", "else", "while", "return", "test", "match",
+            "break", "continue", "for", "in", "assert", "as", "method", "public", "shared", "try", "catch"]
+
+
+def corpus_texts():
+    """corpus/C01/*.txt: inputs that crashed the front end on some tree; run first."""
+    d = os.path.join(os.path.dirname(os.path.dirname(os.path.abspath(__file__))), "corpus", "C01")
+    out = []
+    if os.path.isdir(d):
+        for f in sorted(os.listdir(d)):
+            if f.endswith(".txt"):
+                out.append(open(os.path.join(d, f), encoding="utf-8").read())
+    return out
+
+
+def keyword_line_brace(rng, n_random):
+    """Keywords (and names) at the START OF A LINE glued to `{`: `parse_symbol` does not consume a keyword
+    that is on a later line than the previous token, which made `parse_struct_literal` recurse without
+    bound. Exhaustive over keywords x contexts x bodies, plus random token sequences whose separators
+    are drawn from '', ' ' and newlines (the exhaustive token stream only uses ' ')."""
+    out = []
+    contexts = ["", "x\n", "{ x\n", "f(1,\n", "let y = 2\n", "x +\n", "[1,\n", "if x {\n1\n}\n", "x\n\n"]
+    bodies = ["{", "{ }", "{ a: 1 }", "{\n", "{ a: 1,", " {", "{}\nx"]
+    for kw in KEYWORDS + ["Foo", "_", "Dict"]:
+        for c in contexts:
+            for b in bodies:
+                out.append(c + kw + b)
+    alpha = TOKEN_ALPHABET + KEYWORDS + ["Foo", "a", ":", "Dict"]
+    for _ in range(n_random):
+        k = rng.randint(1, 9)
+        t = ""
+        for _ in range(k):
+            t += rng.choice(alpha) + rng.choice(["", "", " ", " ", "\n", "\n", "\n\n"])
+        out.append(t)
+    return out
+
+
+def _is_float_chars(cs):
+    """Parse.isFloatChars (FLOAT_RE.is_match as a prefix test)."""
+    if cs[:1] == "-":
+        cs = cs[1:]
+    if not cs or not ("0" <= cs[0] <= "9"):
+        return False
+    r = cs[1:]
+    i = 0
+    while i < len(r) and ("0" <= r[i] <= "9" or r[i] == "_"):
+        i += 1
+    return r[i:i + 1] == "." and ("0" <= r[i + 1:i + 2] <= "9") and len(r) > i + 1
+
+
+def _float_whole(cs):
+    """Parse.floatWhole on the text with '_' removed."""
+    cs = cs.replace("_", "")
+    if cs[:1] == "-":
+        cs = cs[1:]
+    i = 0
+    while i < len(cs) and "0" <= cs[i] <= "9":
+        i += 1
+    a, rest = cs[:i], cs[i:]
+    if rest[:1] != ".":
+        return False
+    b = rest[1:]
+    return bool(a) and bool(b) and all("0" <= c <= "9" for c in b)
+
+
+_TOKPOS = re.compile(r"\(tok ([0-9a-f]*) \d+:\d+:(\d+):(\d+):")
+
+
+def lexlike_violation(lex_line):
+    """`Parse.LexLike` (hypothesis of parse_no_panic) on a real token stream: a float-looking token is a
+    whole float; a symbol-like token sits on one line. Returns None or a description."""
+    for h, line, endline in _TOKPOS.findall(lex_line or ""):
+        text = bytes.fromhex(h).decode("utf-8", "replace")
+        if _is_float_chars(text) and not _float_whole(text):
+            return "float-looking token %r is not a whole float" % text
+        if text[:1] and (text[0].isascii() and (text[0].isalpha() or text[0] == "_")) and line != endline:
+            return "symbol-like token %r spans lines %s-%s" % (text, line, endline)
+    return None
+
+
 def run(ctx):
     rng = ctx.rng
     streams = {}
+    streams["corpus"] = corpus_texts()
     n = ctx.scale(800, 60000)
     streams["raw"] = [TG.raw(rng) for _ in range(n)]
     streams["tokens"] = [TG.tokens(rng) for _ in range(n)]
@@ -67,7 +148,10 @@ def run(ctx):
              "struct S { a:", "test t {", "import", 'import "x" as', "public", "method f(this", "1 ** ", "((((",
              "}}}}", "))))", ",,,,", "=> =>", "let = =", "for in in", "return return", "x.0", "1.2.3", "a--1"]
     streams["fixed"] = fixed
-    ctx.rule = ("texts from 9 streams (raw weighted characters incl. 2/3/4-byte and non-ASCII whitespace; whole-token "
+    streams["keyword_line_brace"] = keyword_line_brace(rng, ctx.scale(1500, 60000))
+    ctx.rule = ("texts from 11 streams (corpus/C01 crash inputs first; keywords and names at the start of a line glued "
+                "to `{` in 9 contexts x 7 bodies + random token sequences with '', ' ' and newline separators; "
+                "raw weighted characters incl. 2/3/4-byte and non-ASCII whitespace; whole-token "
                 "sequences; string/comment-dense; perturbed seed files; all %d seed files; every token-boundary prefix "
                 "of seed and generated programs; exhaustive token sequences of length <= %d over %d tokens; exhaustive "
                 "strings of length <= %d over 14 symbols; fixed regressions). Non-trivial = the text is not empty and "
@@ -137,9 +221,26 @@ def run(ctx):
     ctx.sample({"text": streams["prefixes"][5] if len(streams["prefixes"]) > 5 else "", "stream": "prefixes"})
 
     ctx.log("oracle done")
+    # ---------------- LexLike, the hypothesis of parse_no_panic about lexer output, on EVERY real token stream
+    lex_all = ctx.garden_batch(["lex " + hexs(t) for t in all_texts], timeout=1800)
+    n_ll = n_tok_streams = 0
+    for t, o, l in zip(all_texts, origin, lex_all):
+        if not (l and l.startswith("OK")):
+            continue
+        n_tok_streams += 1
+        v = lexlike_violation(l)
+        if v:
+            n_ll += 1
+            if n_ll <= 5:
+                ctx.broken.append({"kind": "correspondence", "what": "hypothesis LexLike of parse_no_panic does not "
+                                   "hold on the real lexer's output: " + v, "input": t, "stream": o})
+    ctx.cov["lexlike_token_streams_checked"] = n_tok_streams
+    ctx.cov["lexlike_violations"] = n_ll
+    ctx.log("LexLike checked on %d real token streams" % n_tok_streams)
     # ---------------- correspondence: lexer model, parser model on the real tokens
     sub = [t for t in all_texts if len(t) < 400]
-    sub = rng.sample(sub, min(len(sub), ctx.scale(3000, 80000))) + fixed
+    sub = rng.sample(sub, min(len(sub), ctx.scale(3000, 80000))) + fixed + streams["corpus"] + \
+        streams["keyword_line_brace"][:ctx.scale(1200, 20000)]
     li = ctx.garden_batch(["lex " + hexs(t) for t in sub])
     lm = ctx.model_batch(["lex " + hexs(t) for t in sub])
     for t, a, b in zip(sub, li, lm):
@@ -147,7 +248,9 @@ def run(ctx):
             ctx.disagree("lex", {"text": t}, (b or "")[:300], (a or "")[:300])
     ctx.cov["lex_compared"] = len(sub)
     ctx.log("lex correspondence done")
-    psub = [t for t in sub if len(t) < 200][:ctx.scale(2000, 50000)]
+    psub = [t for t in sub if len(t) < 200]
+    psub = psub[:ctx.scale(2000, 50000)] + [t for t in psub[ctx.scale(2000, 50000):] if t in set(streams["corpus"])
+                                            or t in set(streams["keyword_line_brace"][:ctx.scale(1200, 20000)])]
     both = AD.parse_both(ctx, psub)
     ndis = 0
     for r in both:
@@ -162,6 +265,8 @@ def run(ctx):
     import shutil
     shutil.rmtree(d, ignore_errors=True)
     ctx.assumptions += ["lexer model M1 and parser model M2 are hand-written; tied by the correspondence runs",
-                        "parse_no_panic for the whole grammar is NOT proved (Props/C01Parse.lean is partial); the type "
-                        "checker and the formatter are not modelled: for them the oracle is the only evidence",
+                        "parse_no_panic assumes `LexLike toks` (float-looking tokens are whole floats, symbol-like "
+                        "tokens sit on one line): not proved about the lexer model; VALIDATED on every real token "
+                        "stream of this run (coverage.lexlike_token_streams_checked, lexlike_violations)",
+                        "the type checker and the formatter are not modelled: for them the oracle is the only evidence",
                         "the native stack is not modelled (fixed-depth probe only)"]
